@@ -42,7 +42,7 @@ def Core.allSpans : Core → Prop
   | .method c sp name args => c.allSpans ∧ P sp ∧ P name.sp ∧ ∀ a ∈ args, a.allSpans P
   | .await c sp => c.allSpans ∧ P sp
   | .named c sp name => c.allSpans ∧ P sp ∧ P name.sp
-  | .unnamed c sp _ => c.allSpans ∧ P sp
+  | .unnamed c sp isp _ => c.allSpans ∧ P sp ∧ P isp
   | .index c sp e => c.allSpans ∧ P sp ∧ e.allSpans P
 
 def VExpr.allSpans (v : VExpr) : Prop := (∀ x ∈ v.pre, x.allSpans P) ∧ v.core.allSpans P
@@ -162,10 +162,10 @@ theorem Core.toks_allSpans (hcs : P Sp.callSite) {value : Toks} (hv : Toks.allSp
     simp only [Core.toks]
     refine append_allSpans (append_allSpans (Core.toks_allSpans hcs hv c h.1) (tq_allSpans h.2.1 _)) ?_
     intro t ht; simp only [List.mem_singleton] at ht; subst ht; exact h.2.2
-  | .unnamed c sp i, h => by
+  | .unnamed c sp isp i, h => by
     simp only [Core.toks]
-    exact append_allSpans (append_allSpans (Core.toks_allSpans hcs hv c h.1) (tq_allSpans h.2 _))
-      (tq_allSpans hcs _)
+    exact append_allSpans (append_allSpans (Core.toks_allSpans hcs hv c h.1) (tq_allSpans h.2.1 _))
+      (tq_allSpans h.2.2 _)
   | .index c sp e, h => by
     simp only [Core.toks]
     exact append_allSpans (append_allSpans (append_allSpans (Core.toks_allSpans hcs hv c h.1)
@@ -393,7 +393,7 @@ theorem applyOp_allSpans (v : VExpr) (op : FieldOp) (hv : v.allSpans P) (ho : op
   | method name sp args => exact ⟨hv.1, hv.2, ho.2.1, ho.1, ho.2.2⟩
   | await sp => exact ⟨hv.1, hv.2, ho⟩
   | named name sp => exact ⟨hv.1, hv.2, ho.2, ho.1⟩
-  | unnamed i sp => exact ⟨hv.1, hv.2, ho⟩
+  | unnamed i sp => exact ⟨hv.1, hv.2, ho, ho⟩
   | index e sp => exact ⟨hv.1, hv.2, ho.2, ho.1⟩
 
 theorem foldl_applyOp_allSpans (ops : List FieldOp) (v : VExpr) (hv : v.allSpans P)
@@ -417,6 +417,17 @@ theorem rootFieldName?_allSpans (ops : FieldOps) (ho : ops.allSpans P) (f : Fiel
   · split at h
     · next op hfind => exact fieldName?_allSpans op (ho op (List.mem_of_find?_eq_some hfind)) f h
     · simp at h
+
+theorem FieldOp.span_allSpans (op : FieldOp) (ho : op.allSpans P) : P op.span := by
+  cases op <;> simp only [FieldOp.span, FieldOp.allSpans] at * <;> first | exact ho | exact ho.2 | exact ho.2.1
+
+theorem rootFieldSp_allSpans (hcs : P Sp.callSite) (ops : FieldOps) (ho : ops.allSpans P) : P ops.rootFieldSp := by
+  unfold FieldOps.rootFieldSp
+  split
+  · next op heq => exact FieldOp.span_allSpans op (ho op (by simp [heq]))
+  · split
+    · next op hfind => exact FieldOp.span_allSpans op (ho op (List.mem_of_find?_eq_some hfind))
+    · exact hcs
 
 theorem tailOps?_allSpans (ops : FieldOps) (ho : ops.allSpans P) (tl : FieldOps)
     (h : ops.tailOps? = some (some tl)) : tl.allSpans P := by
@@ -443,11 +454,11 @@ theorem fieldValue_allSpans (v : VExpr) (ops : FieldOps) (hv : v.allSpans P) (ho
   · next tl heq => exact foldl_applyOp_allSpans _ _ hv (tailOps?_allSpans ops ho tl heq)
   · exact hv
 
-theorem wildBase_allSpans (hcs : P Sp.callSite) (v : VExpr) (f : FieldName) (hv : v.allSpans P) (hf : f.allSpans P) :
-    (wildBase v f).allSpans P := by
+theorem wildBase_allSpans (hcs : P Sp.callSite) (v : VExpr) (rsp : Sp) (hr : P rsp) (f : FieldName) (hv : v.allSpans P) (hf : f.allSpans P) :
+    (wildBase v rsp f).allSpans P := by
   cases f with
   | ident i => exact ⟨⟨hv.1, hv.2⟩, hcs, hf⟩
-  | index n => exact ⟨⟨hv.1, hv.2⟩, hcs⟩
+  | index n => exact ⟨⟨hv.1, hv.2⟩, hcs, hr⟩
 
 theorem var_allSpans (n : Name) (h : n.allSpans P) : (VExpr.ofCore (.var n)).allSpans P :=
   ⟨fun _ hx => by simp [VExpr.ofCore] at hx, h⟩
@@ -604,7 +615,7 @@ theorem expandWildFields_allSpans (hcs : P Sp.callSite) (v : VExpr) (hv : v.allS
       simp only
       split
       · next f hf =>
-        have hb := wildBase_allSpans hcs v f hv (rootFieldName?_allSpans o h.1 f hf)
+        have hb := wildBase_allSpans hcs v o.rootFieldSp (rootFieldSp_allSpans hcs o h.1) f hv (rootFieldName?_allSpans o h.1 f hf)
         split
         · next tl' htl =>
           exact expandPat_allSpans hcs _
